@@ -35,7 +35,7 @@ REQUIRED_BUCKETS = ['list:includes-known-name', 'mode:late-known-static', 'mode:
                     'placeholder:use-in-c15f', 'placeholder:error-names-selector', 'placeholder:finalize-names-binding', 'finalize:same-outcome-as-reduced',
                     'dynamic:partial-list-error', 'dynamic:skip-tuple', 'dynamic:skip-set', 'dynamic:list-includes-known-name',
                     'dynamic:placeholder-in-store', 'dynamic:placeholder-use-raises', 'dynamic:placeholder-finalize-raises', 'dynamic:known-reference-kept',
-                    'dynamic:entry-file', 'dynamic:entry-fab', 'late-known:finalize-passes',
+                    'dynamic:entry-file', 'dynamic:entry-fab', 'late-known:finalize-passes', 'late-known:early-statement-is-a-block',
                     # references (placeholders) in every position the value syntax has: tuples, dict keys, tuples that are dict keys
                     'refpos:unknown:tuple', 'refpos:unknown:dict-key', 'refpos:unknown:tuple-in-dict-key', 'refpos:known:dict-key',
                     'placeholder:kept:tuple', 'placeholder:kept:dict-key', 'placeholder:kept:tuple-in-dict-key', 'placeholder:kept-in-dict-key-of-macro',
@@ -852,7 +852,8 @@ def run_dynamic(ctx, case):
 def iter_cases(ctx, rng, n):
   for i in range(n):
     if i % 11 == 10:
-      yield {'mode': 'late-known', 'dynamic': rng.random() < 0.5, 'skip': rng.choice([True, 'list', False]), 'again': rng.random() < 0.5}
+      yield {'mode': 'late-known', 'dynamic': rng.random() < 0.5, 'skip': rng.choice([True, 'list', False]), 'again': rng.random() < 0.5,
+             'early_block': rng.random() < 0.5, 'scope': rng.choice(['', '', 'sc'])}
       continue
     yield gen_static(rng) if i % 3 else gen_dynamic(rng)
 
@@ -880,7 +881,14 @@ def run_late_known(ctx, case):
     importlib.invalidate_caches()
     head = ''
     early, imp, late, target = '%s.x = 1' % fn, 'import ' + mod, '%s.y = 2' % fn, fn
-  text = head + early + '\n' + imp + '\n' + late + '\n' + (early.replace('= 1', '= 3') + '\n' if case['again'] else '')
+  pre = case.get('scope', '') + '/' if case.get('scope') else ''
+  early, late = pre + early, pre + late
+  again = early.replace('= 1', '= 3') + '\n' if case['again'] else ''
+  if case.get('early_block'):
+    # the statement that comes too early is written as a block (`name:` + indented member): the flat statements after the import follow it directly
+    ctx.bucket('late-known:early-statement-is-a-block')
+    early = '%s:\n  x = 1' % early[:-len('.x = 1')]
+  text = head + early + '\n' + imp + '\n' + late + '\n' + again
   skip = [target] if case['skip'] == 'list' else case['skip']
   ctx.fp('late-known', case['dynamic'], str(case['skip']), case['again'])
   try:
